@@ -181,7 +181,7 @@ theorem head_value (i : Nat) {v : Value} (hw : v.wf = true) (hne : v ≠ .extant
 
 /-- A primitive of the fragment followed by a delimiter is lexed back (with its integer kind normalised). -/
 theorem lexPrim_value (i : Nat) {v : Value} (hp : v.isPrim = true) (hw : v.wf = true) {rest : List Char}
-    (hd : Delim rest) : lexPrim (printV .compact i v ++ rest) = some (.ok (v.norm, rest)) := by
+    (hd : TokEnd rest) : lexPrim (printV .compact i v ++ rest) = some (.ok (v.norm, rest)) := by
   cases v with
   | extant => simp [Value.isPrim] at hp
   | record a its => simp [Value.isPrim] at hp
@@ -732,7 +732,7 @@ theorem pAfterAttr_end {g : Nat} {A : Attrs} {rest : List Char} (hd : Delim rest
 
 theorem elem_prim {f : Nat} (i : Nat) {v : Value} (hp : v.isPrim = true) (hw : v.wf = true) {rest : List Char}
     (hd : Delim rest) : pElem (f + 1) (printV .compact i v ++ rest) = .ok (v.norm, rest) := by
-  have hl := lexPrim_value i hp hw hd
+  have hl := lexPrim_value i hp hw hd.tok
   obtain ⟨c, t, hc, hps⟩ := head_prim i hp (by intro x hx; subst hx; simp [Value.wf] at hw)
   rw [hc] at hl ⊢
   simp only [List.cons_append] at hl ⊢
@@ -808,7 +808,7 @@ theorem elem_step {n : Nat} (ih : IH n) (v : Value) (hs : v.size ≤ n + 1) (hw 
               have hxw : x.wf = true := by simp only [Items.wf, Bool.and_eq_true] at hiw; exact hiw.1
               simp only [printItems, ↓reduceIte, List.nil_append, List.append_nil]
               obtain ⟨c, t, hc, hps⟩ := head_prim i hxp (by intro y hy; subst hy; simp [Value.wf] at hxw)
-              have hl := lexPrim_value i hxp hxw hd
+              have hl := lexPrim_value i hxp hxw hd.tok
               rw [hc] at hl ⊢
               simp only [List.cons_append] at hl ⊢
               refine key _ (by intro y hy; simp at hy; simp [← hy]) ?_
